@@ -635,6 +635,14 @@ def op_iter(st, o):
 
 @op("F.line")
 def op_line(st, o):
+    if isinstance(o["n"], list):
+        # the same line with several numbers of points (where the points land depends on n)
+        out = [_line(st, dict(o, n=k)) for k in o["n"]]
+        return "line" if "line" in out else out[0]
+    return _line(st, o)
+
+
+def _line(st, o):
     h = st.h[o["on"]]
     if h.kind != "F" or "array" not in st.predict:
         return "skipped"
